@@ -161,6 +161,12 @@ func resolve(s *gs.Schema, defs map[string]*gs.Schema) *gs.Schema {
 //   - an optional property holding null or the zero value of a scalar type is treated as absent
 //   - (unknown properties are ignored by both sides: the reference schemas do not forbid them)
 func erase(s *gs.Schema, defs map[string]*gs.Schema, v interface{}, depth int) interface{} {
+	return eraseX(s, defs, v, depth, false)
+}
+
+// eraseX with alsoRequired: the second half of the documented permission — an explicit zero value of a required property
+// that is read-only or has a default may be treated as if the property were absent too
+func eraseX(s *gs.Schema, defs map[string]*gs.Schema, v interface{}, depth int, alsoRequired bool) interface{} {
 	s = resolve(s, defs)
 	if s == nil || depth > 12 {
 		return v
@@ -176,7 +182,7 @@ func erase(s *gs.Schema, defs map[string]*gs.Schema, v interface{}, depth int) i
 			out[k] = e
 		}
 		for _, a := range s.AllOf {
-			if r, ok := erase(a, defs, out, depth+1).(map[string]interface{}); ok {
+			if r, ok := eraseX(a, defs, out, depth+1, alsoRequired).(map[string]interface{}); ok {
 				out = r
 			}
 		}
@@ -186,11 +192,11 @@ func erase(s *gs.Schema, defs map[string]*gs.Schema, v interface{}, depth int) i
 				continue
 			}
 			ps := resolve(p.Schema, defs)
-			if !p.Required && (e == nil || (ps != nil && isZeroOf(ps, e))) {
+			if (!p.Required || (alsoRequired && ps != nil && (ps.ReadOnly || ps.Default != nil))) && (e == nil || (ps != nil && isZeroOf(ps, e))) {
 				delete(out, p.Name)
 				continue
 			}
-			out[p.Name] = erase(p.Schema, defs, e, depth+1)
+			out[p.Name] = eraseX(p.Schema, defs, e, depth+1, alsoRequired)
 		}
 		return out
 	case gs.KArray:
@@ -200,7 +206,7 @@ func erase(s *gs.Schema, defs map[string]*gs.Schema, v interface{}, depth int) i
 		}
 		out := make([]interface{}, len(xs))
 		for i, e := range xs {
-			out[i] = erase(s.Items, defs, e, depth+1)
+			out[i] = eraseX(s.Items, defs, e, depth+1, alsoRequired)
 		}
 		return out
 	case gs.KMap:
@@ -210,7 +216,7 @@ func erase(s *gs.Schema, defs map[string]*gs.Schema, v interface{}, depth int) i
 		}
 		out := map[string]interface{}{}
 		for k, e := range m {
-			out[k] = erase(s.Addl, defs, e, depth+1)
+			out[k] = eraseX(s.Addl, defs, e, depth+1, alsoRequired)
 		}
 		return out
 	}
@@ -421,6 +427,13 @@ func specials0() map[string]*gs.Schema {
 				{Name: "note", Schema: &gs.Schema{Kind: gs.KString, MinLen: gs.I(2)}}}}}},
 		"WithAddl": {Kind: gs.KObject, Props: []gs.Prop{{Name: "id", Schema: &gs.Schema{Kind: gs.KInteger}, Required: true}, {Name: "name", Schema: str()}},
 			Addl: &gs.Schema{Kind: gs.KInteger, Min: gs.I(1)}},
+		// additionalProperties of container and object types next to declared properties
+		"WithAddlMap": {Kind: gs.KObject, Props: []gs.Prop{{Name: "id", Schema: &gs.Schema{Kind: gs.KInteger}, Required: true}, {Name: "name", Schema: str()}},
+			Addl: &gs.Schema{Kind: gs.KMap, Addl: &gs.Schema{Kind: gs.KInteger}}},
+		"WithAddlArr": {Kind: gs.KObject, Props: []gs.Prop{{Name: "id", Schema: &gs.Schema{Kind: gs.KInteger}, Required: true}},
+			Addl: &gs.Schema{Kind: gs.KArray, Items: str()}},
+		"WithAddlRef": {Kind: gs.KObject, Props: []gs.Prop{{Name: "id", Schema: &gs.Schema{Kind: gs.KInteger}, Required: true}},
+			Addl: &gs.Schema{Kind: gs.KRef, Ref: "Base"}},
 		"MaxOnly":    {Kind: gs.KObject, MaxProps: gs.I(2), Props: []gs.Prop{{Name: "a", Schema: str()}, {Name: "b", Schema: str()}, {Name: "c", Schema: str()}}},
 		"MinOnly":    {Kind: gs.KObject, MinProps: gs.I(2), Props: []gs.Prop{{Name: "a", Schema: str()}, {Name: "b", Schema: str()}}},
 		"BothBounds": {Kind: gs.KObject, MinProps: gs.I(1), MaxProps: gs.I(2), Props: []gs.Prop{{Name: "a", Schema: str()}, {Name: "b", Schema: str()}, {Name: "c", Schema: str()}}},
@@ -598,6 +611,8 @@ func main() {
 			// the exception is a permission ("may be treated as absent"): the generated verdict may follow either reading
 			if rawOK0, _ := refValid(c.Def, &root, d); rawOK0 == genOK {
 				refOK = genOK
+			} else if reqOK, _ := refValid(c.Def, &root, eraseX(defs[c.Def], defs, d, 0, true)); reqOK == genOK {
+				refOK = genOK
 			}
 			cov["verdict:"+results[i].Verdict]++
 			if refOK {
@@ -657,7 +672,7 @@ func main() {
 				var o, o2 interface{}
 				_ = json.Unmarshal(results[i].Out, &o)
 				cov["roundtrip"]++
-				if defs[c.Def].InCoqFragment() && closedFragment(defs[c.Def], defs, 0) && len(rtCases) < 1200 && jsonInCoqFragment(d) && jsonInCoqFragment(o) {
+				if defs[c.Def].InCoqFragment() && closedFragment(defs[c.Def], defs, 0) && noAliasedArrayProp(defs[c.Def], defs, 0) && len(rtCases) < 1200 && jsonInCoqFragment(d) && jsonInCoqFragment(o) {
 					rtCases = append(rtCases, fmt.Sprintf("{| rt_schema := %s; rt_doc := %s; rt_out := %s |}", inlineCoq(defs[c.Def], defs, 0), jsonCoq(d), jsonCoq(o)))
 				}
 				if dd := lost(defs[c.Def], defs, d, o, "", 0); dd != "" {
@@ -973,6 +988,35 @@ func closedFragment(s *gs.Schema, defs map[string]*gs.Schema, depth int) bool {
 	case gs.KObject:
 		for _, p := range s.Props {
 			if !closedFragment(p.Schema, defs, depth+1) {
+				return false
+			}
+		}
+	}
+	return true
+}
+
+// noAliasedArrayProp: no optional property refers to a named array definition. Such a field is of a named slice type and carries
+// omitempty (resolvedType.setIsEmptyOmitted: arrays are kept unless aliased), an inline array does not; rt of Sem/Schema.v models
+// inline arrays only, and inlineCoq erases the difference
+func noAliasedArrayProp(s *gs.Schema, defs map[string]*gs.Schema, depth int) bool {
+	if s == nil || depth > 8 {
+		return true
+	}
+	switch s.Kind {
+	case gs.KRef:
+		return noAliasedArrayProp(defs[s.Ref], defs, depth+1)
+	case gs.KArray:
+		return noAliasedArrayProp(s.Items, defs, depth+1)
+	case gs.KMap:
+		return noAliasedArrayProp(s.Addl, defs, depth+1)
+	case gs.KObject:
+		for _, p := range s.Props {
+			if p.Schema.Kind == gs.KRef && !p.Required {
+				if t := resolve(p.Schema, defs); t != nil && t.Kind == gs.KArray {
+					return false
+				}
+			}
+			if !noAliasedArrayProp(p.Schema, defs, depth+1) {
 				return false
 			}
 		}
